@@ -207,6 +207,8 @@ def other_statements(src, name):
     segs = name.split(".")
     out = []
     for stmt in m.body:
+        if len(segs) == 1 and segs[0] in members(stmt) and isinstance(stmt, (ast.Assign, ast.AnnAssign)):
+            continue  # a plain binding of the addressed name IS the addressed location
         if segs[0] in members(stmt) and isinstance(stmt, (ast.ClassDef, ast.FunctionDef)):
             if len(segs) > 1 and isinstance(stmt, ast.ClassDef):
                 out.append("class %s:" % stmt.name)
